@@ -60,6 +60,25 @@ Theorem C11_reopen_restores : forall w,
 Proof. exact reopen_restores_proof. Qed.
 Print Assumptions C11_reopen_restores.
 
+(* the operation that closes may itself fail: save_as (also reached by Workspace.create and by the constructor on a new path)
+   closes the workspace and then raises when the target cannot be written.  The workspace is then exactly as after close():
+   closed, log intact, and open() restores access as in C11_reopen_restores. *)
+Theorem C11_failed_save_as_recoverable : forall w,
+  close_fault w = false ->
+  let w1 := fst (step w SaveAsFail) in
+  let w2 := fst (open_ None w1) in
+  snd (step w SaveAsFail) = Some EFail /\ handle_of w1 = Closed /\ extends w w1 /\ file w2 = file w1
+  /\ (locked w = false -> handle_of w2 = Open (norm (defmode w)))
+  /\ forall cs, forallb (fun c => negb (c_fails c)) cs = true ->
+       (locked w = false /\ writable (defmode w) = true) \/ forallb (fun c => negb (writable (c_req c))) cs = true ->
+       snd (io_calls w2 cs) = None.
+Proof.
+  intros w CF. destruct (failed_save_as_proof w CF) as (E & N & H).
+  destruct (reopen_restores_proof w CF) as (_ & F & X & L & _ & A).
+  cbv zeta. rewrite E. repeat split; try assumption. rewrite <- E. exact H.
+Qed.
+Print Assumptions C11_failed_save_as_recoverable.
+
 (* PARTIAL (as far as the model carries it): in a block of plain operations on a writable workspace, the writer routines of
    every operation that completed before the exit are in the file, in order, followed by the concatenator refresh that close
    performs under `repack` and the closing save -- for every
